@@ -254,8 +254,10 @@ theorem build_meta (pool : Pool) (pd : Pend) (r : BuildOut) (h : build pool pd =
       · simp at h; subst h; simp
       · split at h
         · simp at h
-        · rename_i txs ok _
-          split at h <;> (simp at h; subst h; simp)
+        · split at h
+          · simp at h
+          · rename_i txs ok _
+            split at h <;> (simp at h; subst h; simp)
 
 theorem pendList_mem (pool : Pool) (now timeout : Int) (l : List Pend) (keep : List Pend)
     (posted : List (Slots × Pend)) (tmo : List Pend) (h : pendList pool now timeout l = .ok (keep, posted, tmo))
@@ -423,5 +425,95 @@ theorem pendList_tmo_origin (pool : Pool) (now timeout : Int) (l : List Pend) (k
             · exact ⟨a, by simp, ra, hra, by simpa using hnd, hlate, rfl⟩
             · exact lift hx
           · simp at h; obtain ⟨_, _, rfl⟩ := h; exact lift hx
+
+/-! ### a queued block that was partly filled, then the rest arrives -/
+
+theorem missing_append (hashes : List SH) (a b : Slots) (i : Nat) :
+    missing hashes (a ++ b) i =
+      match missing hashes a i with
+      | .panic => .panic
+      | .ok w1 => (missing hashes b (i + a.length)).map (fun w2 => w1 ++ w2) := by
+  induction a generalizing i with
+  | nil => simp [missing]; cases missing hashes b i <;> simp [Res.map]
+  | cons x r ih =>
+    cases x with
+    | some v =>
+      simp only [List.cons_append, missing, ih (i + 1), List.length_cons]
+      have : i + 1 + r.length = i + (r.length + 1) := by omega
+      rw [this]
+    | none =>
+      simp only [List.cons_append, missing, List.length_cons]
+      cases hashes[i]? with
+      | none => rfl
+      | some h =>
+        simp only [ih (i + 1)]
+        have : i + 1 + r.length = i + (r.length + 1) := by omega
+        rw [this]
+        cases missing hashes r (i + 1) with
+        | panic => simp [Res.map]
+        | ok w1 => cases missing hashes b (i + (r.length + 1)) <;> simp [Res.map]
+
+theorem missing_somes (hashes : List SH) (l : List TxId) (i : Nat) : missing hashes (l.map some) i = .ok [] := by
+  induction l generalizing i with
+  | nil => rfl
+  | cons a r ih => simp [missing, ih]
+
+/-- the work list of the second attempt: only the segments that were absent the first time -/
+def workOf (sh : TxId → SH) : List Marked → Nat → List (Nat × SH)
+  | [], _ => []
+  | (seg, true) :: r, k => workOf sh r (k + seg.length)
+  | (seg, false) :: r, k => enumWork k (seg.map sh) ++ workOf sh r (k + seg.length)
+
+theorem missing_marks (sh : TxId → SH) (hashes : List SH) (marks : List Marked) :
+    ∀ (pre post : List SH), hashes = pre ++ (flatOf marks).map sh ++ post →
+      missing hashes ((marks.map segSlots).flatten) pre.length = .ok (workOf sh marks pre.length) := by
+  induction marks with
+  | nil => intro pre post _; simp [missing, workOf]
+  | cons m r ih =>
+    intro pre post hh
+    obtain ⟨seg, b⟩ := m
+    have hh' : hashes = (pre ++ seg.map sh) ++ (flatOf r).map sh ++ post := by
+      rw [hh]; simp [flatOf]
+    have ihr := ih (pre ++ seg.map sh) post hh'
+    simp only [List.length_append, List.length_map] at ihr
+    simp only [List.map_cons, List.flatten_cons, missing_append]
+    cases b with
+    | true =>
+      simp only [segSlots, if_true, missing_somes, List.length_map, ihr, workOf, Res.map, List.nil_append]
+    | false =>
+      have hm := missing_replicate hashes pre (seg.map sh) ((flatOf r).map sh ++ post) (by rw [hh]; simp [flatOf])
+      simp only [List.length_map] at hm
+      simp only [segSlots, Bool.false_eq_true, if_false, hm, List.length_replicate, ihr, workOf, Res.map]
+
+theorem fill_marks (pool : Pool) (sh : TxId → SH) (marks : List Marked)
+    (hav : Available pool sh (marks.map (·.1))) :
+    ∀ (pre post : Slots) (w : List (Nat × SH)) (ok : Bool),
+      fill pool (workOf sh marks pre.length ++ w) (pre ++ (marks.map segSlots).flatten ++ post) ok =
+        fill pool w (pre ++ (flatOf marks).map some ++ post) ok := by
+  induction marks with
+  | nil => intro pre post w ok; simp [workOf, flatOf]
+  | cons m r ih =>
+    intro pre post w ok
+    obtain ⟨seg, b⟩ := m
+    have hav' : Available pool sh (r.map (·.1)) := fun s hs => hav s (by simp [hs])
+    have ihr := ih hav' (pre ++ seg.map some) post w ok
+    simp only [List.length_append, List.length_map] at ihr
+    cases b with
+    | true =>
+      simp only [workOf, List.map_cons, List.flatten_cons, segSlots, if_true]
+      simpa [flatOf, List.append_assoc] using ihr
+    | false =>
+      obtain ⟨t, rest, hseg, hp⟩ := hav seg (by simp)
+      subst hseg
+      simp only [workOf, List.map_cons, List.flatten_cons, segSlots, Bool.false_eq_true, if_false, List.append_assoc]
+      have hs := fill_segment pool sh t rest pre ((r.map segSlots).flatten ++ post)
+        (workOf sh r (pre.length + (t :: rest).length) ++ w) ok hp
+      have hw : enumWork pre.length (sh t :: List.map sh rest) = enumWork pre.length (List.map sh (t :: rest)) := rfl
+      simp only [List.append_assoc] at hs
+      rw [hw, hs]
+      simpa [flatOf, List.append_assoc] using ihr
+
+theorem postChain_pend (s : State) (key : String) : (postChain s key).pend = s.pend := by
+  unfold postChain; split <;> rfl
 
 end C33
